@@ -1432,3 +1432,45 @@ def string_default(ex, args, callee):
 @stub('<Vec as Default>::default')
 def vec_default(ex, args, callee):
     return Vec((), '')
+
+
+def _next_pow2(ex, args, callee):
+    a = args[0]
+    bits = a.bits
+    t = z3.BitVecVal(1, bits)
+    res = z3.BitVecVal(0, bits)      # overflow case: debug builds panic; the result is irrelevant there
+    for k in range(bits - 1, -1, -1):
+        p = z3.BitVecVal(1 << k, bits)
+        res = z3.If(z3.ULE(a.t, p), p, res)
+    return Int(res, a.ty)
+
+
+for _t in ('usize', 'u64', 'u32'):
+    REG['%s::next_power_of_two' % _t] = _next_pow2
+
+
+@stub('UnsafeCell::new')
+def unsafe_cell_new(ex, args, callee):
+    c = Cell(args[0], 'unsafe-cell')
+    c.tracked = True
+    return Native('UnsafeCell', c, fresh_id())
+
+
+@stub('UnsafeCell::get')
+def unsafe_cell_get(ex, args, callee):
+    u = ex.deref_all(args[0])
+    if not (isinstance(u, Native) and u.rty == 'UnsafeCell'):
+        raise Unsupported('UnsafeCell::get on %r' % (u,))
+    u.state.tracked = True
+    return Native('rawptr', Ref(u.state, (), True), u.ident)
+
+
+@stub('<Option as Clone>::clone')
+def option_clone(ex, args, callee):
+    v = ex.deref_all(args[0])
+    if is_variant(v, 'Some'):
+        inner = v.fields[0]
+        if isinstance(inner, ArcV):
+            return some(arc_clone(ex, [inner], callee))
+        return v
+    return NONE
